@@ -11,6 +11,15 @@ from props.c09 import base_script
 MECHANISMS = ("break", "raise", "gen_close", "with_exit")
 
 
+def _closed_by_library(st):
+    """"the library closes the TCP socket": close() must have been CALLED.  Only on a connection
+    that was reset (where shutdown() fails with ENOTCONN and lomond skips close()) or that never
+    connected is finalisation of the socket object accepted instead."""
+    if st.closed:
+        return True
+    return st.finalised and (st.broken or not st.connected)
+
+
 def scenario_for(case, abandon_at=None, mech=None):
     script, pre, post = base_script(case)
     reactions = copy.deepcopy(case["sends"])
@@ -40,7 +49,8 @@ class C13(Prop):
             "gen.close(), exception leaving a with-block); all harness references to the generator are dropped and the socket and "
             "(if created) the selector must be released while the WebSocket object is still alive. Non-trivial = abandonment after "
             "Connected. Each abandonment is one evaluation.")
-    assumptions = ("socket 'released' = close() called or the object finalised; selector released = its close() called",
+    assumptions = ("socket released = close() was called on it (finalisation alone counts only after a reset, where "
+                   "shutdown() fails and lomond skips close()); selector released = its close() called",
                    "CPython reference counting finalises a dropped generator at once (gc.collect() is run before a leak is reported)")
     examples = {"quick": 320, "thorough": 3200}
 
@@ -91,11 +101,11 @@ class C13(Prop):
                     return failed("abandon_raised", "abandoning by %s at event %d (%s) raised %s" % (
                         mech, i, name, tr.abandon_error), labels, after_connected, sub)
                 sim = tr.sim
-                leaked = [s for s in sim.socks if not s.released]
+                leaked = [s for s in sim.socks if not _closed_by_library(s)]
                 open_sel = [s for s in sim.selectors if not s[2]]
                 if leaked or open_sel:
                     gc.collect()
-                    leaked = [s for s in sim.socks if not s.released]
+                    leaked = [s for s in sim.socks if not _closed_by_library(s)]
                     open_sel = [s for s in sim.selectors if not s[2]]
                 if leaked:
                     sig = "socket_leaked_at_" + site.split("(")[0]
@@ -107,6 +117,35 @@ class C13(Prop):
                         mech, i, name), labels, after_connected, sub)
                 ws = tr.ws   # keep the WebSocket alive until after the checks
                 del tr, ws
+        # the generator is kept alive while the SAME WebSocket object connects again, and is only
+        # finalised afterwards: the first connection's socket must still be closed by its own loop
+        second = {"script": [["wait_request"], ["stream", [["reply", None]], "whole", 0.0], ["eof", 0.5]]}
+        for i, name in enumerate(names):
+            if name == "connecting" or i == len(names) - 1:
+                continue
+            scn = scenario_for(case, i, "hold")
+            scn["attempts"] = [scn["attempts"][0], second]
+            scn["attempts"][0]["reactions"] = scn.pop("reactions")
+            scn["attempts"][1]["reactions"] = []
+            traces = simnet.run_chain(scn)
+            sub.append(("%d:hold+reconnect" % i, True))
+            labels.add("mech:hold_then_reconnect")
+            first = traces[0]
+            sim = first.sim
+            if first.hang or traces[1].hang:
+                return failed("hang", first.hang or traces[1].hang, labels, True, sub)
+            first.held = None          # now the abandoned generator is finalised
+            traces[0] = None
+            del first
+            leaked = [s0 for s0 in sim.socks if not _closed_by_library(s0)]
+            if leaked:
+                gc.collect()
+                leaked = [s0 for s0 in sim.socks if not _closed_by_library(s0)]
+            if leaked:
+                return failed("socket_leaked_after_reconnect",
+                              "loop abandoned at event %d (%s) with the generator kept alive, the same WebSocket connected "
+                              "again, then the old generator was dropped: socket %s of the first connection was never "
+                              "closed" % (i, name, [s0.sid for s0 in leaked]), labels, True, sub)
         labels.add(("abandonments", len(sub)))
         return held(labels, False, sub)
 
